@@ -23,6 +23,8 @@ func init() {
 	register(&Scenario{Prop: "C06", Name: "registry-enum", Run: runRegistryEnum})
 	register(&Scenario{Prop: "C06", Name: "inuse-conc", Run: runInUseConc})
 	register(&Scenario{Prop: "C01", Name: "setup-conc", Run: runSetupConc})
+	// C02 after registry histories: Sends between re-bindings of node ids to nodes of ANOTHER kind
+	register(&Scenario{Prop: "C02", Name: "status-after-rebinding", Run: func(rc *RunCtx) { runRegistrySeq(rc, "C02") }})
 	register(&Scenario{Prop: "C07", Name: "registry-policy", Run: func(rc *RunCtx) { runRegistrySeq(rc, "C07") }})
 	register(&Scenario{Prop: "C20", Name: "registry-reopen", Run: func(rc *RunCtx) { runRegistrySeq(rc, "C20") }})
 	register(&Scenario{Prop: "C20", Name: "reopen-conc", Run: runReopenConc})
@@ -149,6 +151,9 @@ func policyOpt(p string, node bool) ([]el.Option, el.RegistrationPolicy, bool) {
 		pol = el.DenyOverwrite
 	default:
 		pol = el.RegistrationPolicy("bogus-" + p)
+		if strings.HasPrefix(p, "invalid:") {
+			pol = el.RegistrationPolicy(p[len("invalid:"):]) // e.g. the constants in another letter case: not a policy
+		}
 	}
 	if node {
 		return []el.Option{el.WithNodeRegistrationPolicy(pol)}, pol, true
@@ -499,6 +504,27 @@ func (w *regWorld) sendProbe(typ string) (ms []mismatch) {
 	}
 	if _, why := matchPrefixes(chains, obs, false); why != "" {
 		ms = append(ms, mismatch{"delivery", "", fmt.Sprintf("Send(%s) (status %v, err %v): %s; model pipelines: %s", typ, st, err, why, describeChains(pipes, chains))})
+		return
+	}
+	// C02: the Status names the node each traversal ended at, and among those exactly the ones that are sinks
+	// -- by what the node that RAN is, not by what was once registered under its id
+	wantC, wantS := map[string]int{}, map[string]int{}
+	for i, ch := range chains {
+		if len(ch) == 0 {
+			continue
+		}
+		end, isSink, isErr := chainEnd(ch)
+		if isErr || end == nil {
+			continue
+		}
+		id := pipes[i].nodeIDs[len(ch)-1]
+		wantC[id]++
+		if isSink {
+			wantS[id]++
+		}
+	}
+	if gotC, gotS := multiset(st.Complete()), multiset(st.CompleteSinks()); !sameMultiset(gotC, wantC) || !sameMultiset(gotS, wantS) {
+		ms = append(ms, mismatch{"status-sinks", "", fmt.Sprintf("Send(%s): Complete() = %v, CompleteSinks() = %v; the traversals ended at %v, of which sinks: %v; model pipelines: %s", typ, st.Complete(), st.CompleteSinks(), wantC, wantS, describeChains(pipes, chains))})
 	}
 	return
 }
@@ -648,7 +674,7 @@ func runRegistrySeqOps(rc *RunCtx, prop string, fixed []regOp) {
 		ids = []string{"n0", "n1", "n2", "n3"}
 		idKind = map[string]int{"n0": int(el.NodeTypeFilter), "n1": int(el.NodeTypeFormatter), "n2": int(el.NodeTypeSink), "n3": int(el.NodeTypeSink)}
 	}
-	maxLen := map[string]int{"C05": 14, "C06": 60, "C07": 24, "C20": 12}[prop]
+	maxLen := map[string]int{"C05": 14, "C06": 60, "C07": 24, "C20": 12, "C02": 16}[prop]
 	n := 1 + tp.Choose(maxLen, "histlen")
 	if tp.Choose(3, "short") == 0 {
 		n = 1 + tp.Choose(7, "histlen-short")
@@ -716,9 +742,9 @@ func runRegistrySeqOps(rc *RunCtx, prop string, fixed []regOp) {
 	genPolicy := func() string {
 		switch prop {
 		case "C07":
-			return []string{"", "allow", "deny", "invalid", "", "deny"}[tp.Choose(6, "policy")]
+			return []string{"", "allow", "deny", "invalid", "", "deny", "invalid:denyoverwrite", "invalid:ALLOWOVERWRITE"}[tp.Choose(8, "policy")]
 		case "C05":
-			return []string{"", "", "", "deny", "allow", "invalid"}[tp.Choose(6, "policy")]
+			return []string{"", "", "", "deny", "allow", "invalid", "invalid:denyoverwrite", "invalid:DenyOverwrite "}[tp.Choose(8, "policy")]
 		}
 		return []string{"", "", "", "", "allow", "deny"}[tp.Choose(6, "policy")]
 	}
@@ -737,6 +763,7 @@ func runRegistrySeqOps(rc *RunCtx, prop string, fixed []regOp) {
 			"C06": {4, 6, 3, 4, 5, 1, 0, 1},
 			"C07": {6, 7, 2, 1, 2, 3, 2, 1},
 			"C20": {3, 6, 2, 1, 1, 0, 5, 2},
+			"C02": {6, 6, 1, 1, 1, 6, 0, 0},
 		}[prop]
 		tot := 0
 		for _, x := range weights {
@@ -775,7 +802,7 @@ func runRegistrySeqOps(rc *RunCtx, prop string, fixed []regOp) {
 			if (prop == "C05" || prop == "C07") && o.Policy != "" && tp.Choose(4, "policy2") == 0 {
 				o.Policy2 = secondPolicy(o.Policy, tp.Choose(3, "policy2-kind"))
 			}
-			if (prop == "C05" || prop == "C07" || prop == "C06") && tp.Choose(6, "otherkind") == 0 {
+			if (prop == "C05" || prop == "C07" || prop == "C06" || prop == "C02") && tp.Choose(map[bool]int{true: 2, false: 6}[prop == "C02"], "otherkind") == 0 {
 				// the node behind an id (possibly in use) is replaced by one of ANOTHER kind
 				o.NodeKind = []int{int(el.NodeTypeFilter), int(el.NodeTypeFormatter), int(el.NodeTypeFormatterFilter), int(el.NodeTypeSink)}[tp.Choose(4, "kind")]
 				o.SameObj = false
@@ -1000,6 +1027,8 @@ func relevant(prop, rule string) bool {
 		return rule == "policy-node" || rule == "accept" || rule == "delivery" || rule == "reopen-missed"
 	case "C20":
 		return rule == "reopen-error" || rule == "reopen-missed"
+	case "C02":
+		return rule == "status-sinks" || rule == "delivery"
 	}
 	return true
 }
